@@ -136,8 +136,10 @@ class ClockSeam:
     def vnow(self):
         return EPOCH + datetime.timedelta(seconds=self.loop.time())
 
+    _MISSING = object()
+
     def _set(self, mod, name, value):
-        self.saved.append((mod, name, getattr(mod, name)))
+        self.saved.append((mod, name, getattr(mod, name, self._MISSING)))
         setattr(mod, name, value)
 
     def install(self):
@@ -173,7 +175,10 @@ class ClockSeam:
     def remove(self):
         while self.saved:
             mod, name, val = self.saved.pop()
-            setattr(mod, name, val)
+            if val is self._MISSING:
+                delattr(mod, name)
+            else:
+                setattr(mod, name, val)
 
 
 def run_on_vloop(main_factory, *, on_step=None, on_quiescent=None, horizon=None, max_steps=200000, patch_clock=True):
